@@ -115,7 +115,7 @@ def run(tier):
     stats = collections.Counter()
     shapes = collections.Counter()
     codes = collections.Counter()
-    nmodels = 120 if tier == 'quick' else 6000
+    nmodels = 120 if tier == 'quick' else 2400
     maxlen = 3 if tier == 'quick' else 4
     rounds = 1 if tier == 'quick' else 12
     for rd in range(rounds):
